@@ -19,5 +19,6 @@ INVARIANT NoSkippedRepeat
 INVARIANT FifoBounded
 INVARIANT ReleaseFollows
 PROPERTY Cadence
+PROPERTY ReleaseJustified
 PROPERTY DropsOldestOnly
 CHECK_DEADLOCK FALSE
